@@ -1,66 +1,89 @@
 """C08 -- the SCC reader shows what a CEA-608 decoder displays, when it displays it (DESIGN.md section 3, C08).
 
 Explicit-state search (E-states).  A state is a history of protocol *tokens* (RCL, PAC, a text pair, CR, a line
-break ...) accepted by the pop-on / roll-up / paint-on protocol automata.  For every explored history the SCC
-text is rendered, `ttconv.scc.reader.to_model` is run on it, the displayed screen D(t) is derived from the
-document for every frame and compared with the reference CEA-608 decoder of mc/ref608dec.py fed the same words.
+break ...) accepted by the pop-on / roll-up / paint-on protocol automata (class Proto).  For every explored history
+the SCC text is rendered (our own SMPTE labels, odd parity on even word positions, parity bits cleared on odd ones),
+`ttconv.scc.reader.to_model` is run on it, the displayed screen D(t) is derived from the document for every frame
+and compared with the reference CEA-608 decoder of mc/ref608dec.py fed the same words.
 
-Oracle (clauses).  With R_j the reference screen after the j-th word of the file, word j being transmitted during
-[s_j, s_j + 1 frame) where s_j = its line's time code + its index in the line:
+Oracle.  With R_g the reference screen after the g-th word of the file, word g being transmitted during
+[s_g, s_g + 1 frame), s_g = its line's time code + its index in the line:
   at every probe time t (every frame of every line's transmission window, every instant at which the document
-  changes, and after the end) D(t) must equal R_g for some g in [lo(t), hi(t)], g non-decreasing in t, where
-    hi(t) = last word of the line whose time code is the latest one <= t   (never ahead of what has been sent
-            in a *later* line; inside a line the reader is line-granular: it may show a row as soon as the
-            CR/PAC that opens it arrives -- the statement's second sentence grants that slack),
+  changes, one frame before the first line and one second after the last change) D(t) must equal R_g for some
+  g in [lo(t), hi(t)], g non-decreasing in t, where
+    hi(t) = last word of the line whose time code is the latest one <= t   (never ahead of a *later* line; inside
+            a line the reader is line-granular: it shows a row as soon as the CR/PAC that opens it arrives and does
+            not advance its clock on redundant control codes -- the statement's second sentence grants that slack),
     lo(t) = last word whose transmission ended one frame or more before t (CEA-608 decoders act "within one
             frame"; the reader's EDM convention, pinned by its unit tests, uses that frame).
-  In a quiet gap lo = hi, hence D = R exactly (`stable`); during a line it is the `transit` clause.
-  Mismatches are classified: `gap` (only blanks differ), `rows` / `rollup.baserow` (same texts, other rows),
-  `style` (colour / italics / underline of a non-blank character), `window` (roll-up shows more than N rows),
-  `backspace`, `extended`, `dup`, `chan2` (culprit token), `timing` (a begin/end off the 30 / 30000/1001 frame
-  grid or end < begin), `config.align`.
-  Not demanded: columns, textAlign under `auto`, region ids, leading / trailing blanks, attributes of blanks,
-  absolute rows of roll-up captions (own clause `rollup.baserow`).
+  In a quiet gap lo = hi, hence D = R exactly (clause `stable`); during a line it is clause `transit`.
+  Screens are compared row by row: the characters from the first to the last non-blank cell with runs of blanks
+  collapsed to one blank (the model's default white-space handling collapses them: their number is not observable),
+  the row number (+-0.3 row; roll-up up to a common vertical translation, absolute rows under `rollup.baserow`),
+  colour / italics / underline of the non-blank characters.
+Clauses: `stable`, `transit` (text), `gap` (a blank between two characters missing or extra), `rows`, `rollup.baserow`,
+  `style`, `window` (roll-up shows more rows than the selected depth), `backspace`, `extended`, `dup`, `chan2` (text
+  disagreement whose culprit token is a BS / an extended character / a doubled code / a channel-2 or null word),
+  `timing` (begin / end / span begin off the frame grid of 30 or 30000/1001, end < begin; text shown before its line),
+  `painton.overwrite`, `config.align` (pop-on paragraphs carry the configured textAlign; the content does not depend on
+  it), and the isolated `timing.convention` (the reader's own clock: time code + number of words that are not redundant
+  copies, +1 for EDM -- pinned by the unit tests, not demanded by the statement).
+Signatures.  A disagreement is first explained, if possible, by the smallest set of *named departures* (reference
+  decoder variants of ref608dec / oracle variant "row shown with text of later lines"); each departure is reported as
+  (clause, dev=<name>).  What remains is reported with the feature vector of the culprit token (first prefix that
+  fails; pop-on loads are judged with an EOC appended): kind, mode, token class, state of the cursor's row
+  (empty / append / gap / over), display erased since the style was entered.
+Not demanded: columns, textAlign under `auto`, region ids, leading / trailing blanks, number of blanks in a run,
+  attributes of blanks, absolute rows of roll-up captions (own clause).
 """
 from __future__ import annotations
 
-import math
 from fractions import Fraction as F
 
 from mc import env  # noqa  (first: puts the explored tree on sys.path)
-from mc.kernel import StateFamily, HarnessError
+from mc.kernel import StateFamily, HarnessError, h64
 from mc import ref608dec as R6
 
 import ttconv.scc.reader as scc_reader
 from ttconv.scc.context import SccContext
 from ttconv.scc.config import SccReaderConfiguration, TextAlignment
 from ttconv.model import P, Span, Br, Text
-from ttconv.style_properties import StyleProperties, FontStyleType, DisplayAlignType, TextAlignType
+from ttconv.style_properties import StyleProperties, FontStyleType, DisplayAlignType
 from ttconv.isd import ISD
 
 ID = "C08"
 LEVEL = "model_checking"
 RULE = ("a case is one transition: a token history accepted by the pop-on / roll-up / paint-on protocol automata, "
-        "rendered to SCC text and read by ttconv.scc.reader.to_model; all enabled tokens are executed in every reached "
+        "rendered to SCC text and read by ttconv.scc.reader.to_model; every enabled token is executed in every reached "
         "state, breadth first, states de-duplicated on (protocol state, reference decoder state, projection of the real "
-        "SccContext and of the regions created so far); a case is non-trivial when the reference decoder displays at "
-        "least one non-blank screen for it; distinct by rendered SCC text")
+        "SccContext captured by a recording subclass: style, depth, cursors, pen, previous word, channel, rows / texts / "
+        "styles of buffered and active caption, and the regions created so far); a case is non-trivial when the reference "
+        "decoder displays at least one non-blank screen for it; distinct by rendered SCC text")
 BOUNDS = {
-  "quick": "families popon (depth 7), rollup (7), painton (7), mix (8, lean alphabet), deco (6: doubling x null / channel-2 "
-           "interleaving x line breaks gap 0/1/40 x DF/NDF, lean alphabet); rows {1,14,15}, PAC {indent 0, indent 8, "
-           "white underline, cyan}, TO1-3, mid-row {italics, white, green underline}, texts 'ab', 'c'+null, special, extended",
-  "thorough": "same families two tokens deeper",
+  "quick": "9 families, control codes doubled unless stated: popon-layout (all 12 PACs rows {1,14,15} x {indent 0, indent 8, "
+           "white underline, cyan}, texts 'ab' / 'c'+null, optional ENM / EDM, depth 7), popon-pen (3 PACs, TO1-3, mid-row "
+           "{italics, white, green underline}, BS, special, extended, depth 6), popon-reuse (rows addressed twice, depth 6), "
+           "rollup (RU2/3/4, 6 PACs, 2 mid-row codes, BS, extended, EDM, depth 6), painton (6 PACs, mid-row, BS, DER, "
+           "extended, EDM, depth 6), painton-words (pairs with blanks, depth 6), mix (alternations of the three styles, depth 8), "
+           "deco-n / deco-d (single and doubled codes x null / channel-2 code / channel-2 PAC+text x line breaks with gap "
+           "0 / 1 / 40 frames, NDF resp. DF time codes across 00:01:00, depth 5); text_align auto on every history, "
+           "left / center / right on every history that ends with EOC",
+  "thorough": "the same families one (popon-pen, painton) or two tokens deeper",
 }
 ASSUMPTIONS = [
-  "mc/ref608dec.py is CEA-608 (bound by gates(): PAC row table, hand examples, the literals of test_scc_reader.py and the "
-  "three bundled SCC files)",
+  "mc/ref608dec.py is CEA-608 / 47 CFR 15.119 (bound by gates(): PAC row table, hand examples, the literals asserted by "
+  "test_scc_reader.py and the three bundled SCC files)",
   "a decoder may take one frame to act on a control code: lo(t) only counts words whose transmission ended >= 1 frame "
   "before t (this admits the reader's pinned EDM convention: end = frame after the EDM + 1)",
-  "style changes happen only while both reference memories are blank (DESIGN appendix B), roll-up depth only grows while "
-  "rows are displayed, rows never reach column 32: the corresponding CEA-608 rules are not exercised",
-  "the displayed screen is derived from p/span begin/end, region origin/extent/displayAlign and br counts; this derivation "
-  "is itself compared with ISD.from_model on every history of length <= 4 (a disagreement is a harness error)",
-  "scheduled times are exact: a line's k-th word is transmitted in frame (time code + k) at 30 fps (':') or 30000/1001 (';')",
+  "caption style changes happen only while both reference memories are blank (DESIGN appendix B), the roll-up depth only "
+  "grows while rows are displayed, rows never reach column 32, BS / DER follow text: the CEA-608 rules for the other cases "
+  "are not exercised",
+  "the displayed screen is derived from p / span begin and end, region origin / extent / displayAlign and br counts; this "
+  "derivation is itself compared with ISD.from_model on every history of length <= 4 and on 1/32 of the longer ones "
+  "(a disagreement is a harness error)",
+  "words are transmitted one per frame from the line's time code, at 30 fps (':') or 30000/1001 fps drop-frame (';')",
+  "states that differ only in absolute time (number of null / redundant words so far, gaps) are merged: the reader keeps no "
+  "time across lines except in paragraphs already begun, whose times are judged in the history that produced them",
 ]
 
 # ------------------------------------------------------------------------------------------------------
@@ -162,7 +185,7 @@ PROFILES = {
 DEPTHS = {
   "quick": {"popon-layout": 7, "popon-pen": 6, "popon-reuse": 6, "rollup": 6, "painton": 6, "painton-words": 6, "mix": 8,
             "deco-n": 5, "deco-d": 5},
-  "thorough": {"popon-layout": 9, "popon-pen": 8, "popon-reuse": 8, "rollup": 8, "painton": 8, "painton-words": 8, "mix": 10,
+  "thorough": {"popon-layout": 9, "popon-pen": 7, "popon-reuse": 8, "rollup": 8, "painton": 7, "painton-words": 8, "mix": 10,
                "deco-n": 7, "deco-d": 7},
 }
 
@@ -881,8 +904,8 @@ def evaluate(history, prof, deep=True):
   out.nontrivial = any(r[0] for r in refs)
   findings = judge(rend, view, refs)
   out.klass = _klass(history, proto, view)
-  if len(history) <= 4 and rend.lines:
-    _cross_check_isd(doc, view, rend)
+  if rend.lines and (len(history) <= 4 or h64(text) % 32 == 0):
+    _cross_check_isd(doc, view, rend)          # harness self-check: every short history and 1/32 of the others (by content hash)
   if findings and deep:
     _attribute(history, prof, rend, view, findings, out)
   if deep and rend.lines:
@@ -1179,8 +1202,11 @@ def _parent_proj(history, prof):
 
 
 def plan(tier, seed):
+  """VERIF_SEED selects the slice: odd seeds swap the time code kind (drop-frame / non-drop-frame) of every family"""
   fams = []
   for name, prof in PROFILES.items():
+    if seed % 2 == 1:
+      prof = dict(prof, rate="d" if prof["rate"] == "n" else "n")
     fams.append(_mk_family(name, prof, DEPTHS[tier][name]))
   return fams
 
@@ -1350,10 +1376,37 @@ def gates():
       pinned += 1
   finally:
     R6.COLS = saved
-  # times pinned by the unit tests lie inside the windows the oracle grants:
-  # EOC as 21st word of 01:02:53:14 -> asserted begin 01:02:54:00 = +16 frames (<= 20 + 2); EDM 01:02:55:14 -> end :16 (= 0 + 2)
-  if not (0 <= 16 <= 20 + 2 and 0 <= 2 <= 0 + 2):
-    raise HarnessError("C08 gate: pinned times outside the window")
+  # times pinned by the unit tests: (words of the line, what triggers, which occurrence, asserted offset in frames from the
+  # line's time code).  They must lie inside the window the oracle grants (0 .. index + 2) and obey the convention clause
+  # (number of non-redundant words up to the trigger, +1 for EDM).
+  pinned_times = [
+    ("94ae 94ae 9420 9420 947a 947a 97a2 97a2 a820 68ef f26e 2068 ef6e 6be9 6e67 2029 942c 942c 8080 8080 942f 942f", "EOC", 0, 16),   # 01:02:53:14 -> 01:02:54:00
+    ("942c 942c", "EDM", 0, 2),                                                                                                     # 01:02:55:14 -> :16
+    ("94ae 94ae 9420 9420 94f2 94f2 c845 d92c 2054 c845 91b0 45ae 942c 942c 8080 8080 942f 942f", "EOC", 0, 13),                     # 01:03:27:29 -> 01:03:28:12
+    ("9425 9425 94ad 94ad 9470 9470 4c6f 7265 6d20 6970 7375 6d20 646f 6c6f 7220 7369 7420 616d 6574 2c80", "CR", 0, 2),             # 00:00:00:22 -> :24
+    ("94a7 94ad 9470 4c6f 7265 6d20 6970 7375 6d20 646f 6c6f 7220 7369 7420 616d 6574 2c80", "CR", 0, 2),                            # 00:00:34;27 -> ;29
+    ("9429 9429 94d2 94d2 4c6f 7265 6d20 6970 7375 6d20 646f 6c6f 7220 7369 7420 616d 6574 2c80 94f2 94f2 636f 6e73", "PAC", 0, 2),  # 00:02:53:14 -> :16
+    ("9429 9429 94d2 94d2 4c6f 7265 6d20 6970 7375 6d20 646f 6c6f 7220 7369 7420 616d 6574 2c80 94f2 94f2 636f 6e73", "PAC", 1, 17), # -> 00:02:54:01
+    ("9420 9150 4c6f 7265 6d20 6970 7375 6d20 646f 6c6f 7220 7369 7420 616d 6574 2c80 942c 8080 8080 942f", "EOC", 0, 20),           # 00:00:00:00 -> :20
+    ("9426 942c 94ad 9050 636f 6e73", "EDM", 0, 3),                                                                                 # 00:00:01:14 -> :17
+  ]
+  for words, trig, occ, want in pinned_times:
+    d = R6.Decoder()
+    cnt = 0
+    seen = 0
+    hit = None
+    for i, w in enumerate(_words_of(words)):
+      d.feed(w)
+      if d.acted != "ignored-dup":
+        cnt += 1
+      if d.acted == trig:
+        if seen == occ:
+          hit = (i, cnt + (1 if trig == "EDM" else 0))
+          break
+        seen += 1
+    if hit is None or not (0 <= want <= hit[0] + 2) or want != hit[1]:
+      raise HarnessError(f"C08 gate: pinned time +{want} frames for {trig}#{occ} of {words[:30]}...: reference says {hit}")
+    pinned += 1
   # our SMPTE labels
   for k, df, want in ((1790, False, "00:00:59:20"), (1790, True, "00:00:59;20"), (1800, True, "00:01:00;02"), (1799, True, "00:00:59;29"),
                       (17982, True, "00:10:00;00"), (1800, False, "00:01:00:00")):
